@@ -221,7 +221,7 @@ prop('C14', level='other',
                  'combination; the stored option dictionaries are not modified (compute_features has an empty frame); '
                  'reduce_thresholds returns a new dictionary with every *threshold key lowered by r and all others equal; the '
                  'constructor expands every shorthand name, keeps full names and min_n_cycles, and installs the documented defaults '
-                 '(2^11 presence patterns). Since fit reads nothing but the current settings and its arguments, "a fit yields what a '
+                 '(three representative names in both spellings plus min_n_cycles: 2^7 presence patterns). Since fit reads nothing but the current settings and its arguments, "a fit yields what a '
                  'fresh object with the current settings yields" follows for every history. Bounded: recompute_edges / load / '
                  'attribute access / BycycleGroup mirrors (operation sequences, incl. refits with the same array object).')
 
